@@ -203,16 +203,33 @@ def main(rep):
             argv.append(("a%d" % n, "cpp %s %s" % (hexs(a), hexs(b))))
             n += 1
             ncpp += 1
+        # the table of editor process ids: any initial size (not only multiples of eight), any process id up to the
+        # kernel's maximum and beyond the current size; every access stays inside the allocation
+        nbm = 0
+        rngb = random.Random(rep.seed + 13)
+        for i in range(200 if rep.tier == "quick" else 3000):
+            g = rngb.choice([0, 1, 2, 3, 5, 7, 9, 12, 15, 17, 100, 1001, 32768, 32771])
+            ops = []
+            for _ in range(rngb.randint(1, 12)):
+                b = rngb.choice([0, 1, g - 1 if g else 0, g, g + 1, 2 * g + 1, 2 * g + 2, 2 * g + 3, rngb.randint(0, 70000), 4194303])
+                ops.append(rngb.choice("ssug") + str(b))
+                # the highest positions of the table as it now is (twice the last set bit plus one)
+                if ops[-1][0] == "s":
+                    ops += ["g%d" % (2 * b + 1), "u%d" % (2 * b + 1), "g%d" % (2 * b)]
+            argv.append(("a%d" % n, "bm %d %s" % (g, " ".join(ops))))
+            n += 1
+            nbm += 1
         total += len(argv)
-        dist["argv"] = len(argv) - ncpp
+        dist["argv"] = len(argv) - ncpp - nbm
         dist["root_pairs"] = ncpp
+        dist["pid_tables"] = nbm
         if not found:
             impl, model, problems = vlib.correspond(exe_impl, exe_model, "pure", argv)
             for p in problems:
                 if "implementation driver exited" in p:
                     culprit = next(((c, t) for c, t in argv if not impl.get(c)), (None, ""))
                     rep.violation("memory", {"case": culprit[0], "driver": "pure", "script": [culprit[1]],
-                                             "what": "the sanitizer build died while parsing a command line or comparing two watch roots (first input without an answer: %s): %s" % (culprit[1], p[-600:])})
+                                             "what": "the sanitizer build died while parsing a command line, comparing two watch roots or using the table of process ids (first input without an answer: %s): %s" % (culprit[1], p[-600:])})
                     found = True
                     break
             if not found:
